@@ -17,6 +17,8 @@ def make(tt, S, origin, real):
     if origin == "slice2":
         d = len(S["I"])
         return X[(slice(None, None, 2),) + (slice(None),) * (d - 1)] if d > 1 else X[slice(None, None, 2)]
+    if origin == "neg":
+        return -X
     if origin == "svd":
         D = project.dense(X.cores)
         if S["k"] == "tt":
@@ -109,7 +111,8 @@ def handler(st, opts):
             problems.append(P("dtype", "dtype %s, expected %s" % ({c.dtype for c in Y.cores}, want_dt)))
         if op in ("save_load", "clone_c", "detach", "cpu"):
             for k, (a, b) in enumerate(zip(X.cores, Y.cores)):
-                if a.shape != b.shape or not torch.equal(a.detach().resolve_conj(), b.detach().resolve_conj()):
+                if a.shape != b.shape or a.dtype != b.dtype or \
+                        a.detach().resolve_conj().contiguous().numpy().tobytes() != b.detach().resolve_conj().contiguous().numpy().tobytes():
                     problems.append(P("cores", "core %d is not bit-identical after %s" % (k, op)))
                     break
         got = project.dense(Y.cores)
